@@ -251,6 +251,8 @@ func c04SDL() string {
 	for bi, base := range c04Bases {
 		for w := 0; w < c04NWrappers; w++ {
 			fmt.Fprintf(&b, "  f%d_%d(x: %s): String\n", bi, w, c04Wrap(base, w))
+			// the same argument declared with a default value, next to an unrelated second argument
+			fmt.Fprintf(&b, "  d%d_%d(x: %s = %s, y: Int): String\n", bi, w, c04Wrap(base, w), validLit(c04Wrap(base, w)))
 		}
 	}
 	b.WriteString("}\n")
@@ -677,6 +679,29 @@ func validLit(t *world.T) string {
 	return "{req: 77}"
 }
 
+// validCV is the client value validLit spells.
+func validCV(t *world.T) CV {
+	switch t.K {
+	case world.TNonNull:
+		return validCV(t.Of)
+	case world.TList:
+		return cvL(validCV(t.Of))
+	}
+	switch t.Name {
+	case "Int", "Int64":
+		return cvI(77)
+	case "Float", "Float64":
+		return cvF(77.5)
+	case "String", "ID":
+		return cvS("dd")
+	case "Boolean":
+		return cvB(false)
+	case "E":
+		return cvE("BLUE")
+	}
+	return cvO("req", cvI(77))
+}
+
 // validJSON: a valid variable value for t as a JSON decoder would deliver it, different from anything in the menu.
 func validJSON(t *world.T) interface{} {
 	switch t.K {
@@ -737,6 +762,12 @@ func (a *c04Any) Nth(list interface{}, i int) (interface{}, error) { return nil,
 type C04FSQuery struct{ xr *c04Rec }
 type C04FSRoot struct{ Query *C04FSQuery }
 
+func (q *C04FSQuery) Rec2(x interface{}, y interface{}) (interface{}, error) {
+	q.xr.invoked++
+	q.xr.args = map[string]interface{}{"x": x}
+	return "ok", nil
+}
+
 func (q *C04FSQuery) Rec(x interface{}) (interface{}, error) {
 	q.xr.invoked++
 	q.xr.args = map[string]interface{}{"x": x}
@@ -765,6 +796,9 @@ func c04Root(strat world.Strategy, sdl string) (*ggql.Root, *c04Rec) {
 		for bi := range c04Bases {
 			for w := 0; w < c04NWrappers; w++ {
 				if err := root.RegisterField("Query", fmt.Sprintf("f%d_%d", bi, w), "Rec"); err != nil {
+					panic(core.EngineError{Msg: err.Error()})
+				}
+				if err := root.RegisterField("Query", fmt.Sprintf("d%d_%d", bi, w), "Rec2", "x", "y"); err != nil {
 					panic(core.EngineError{Msg: err.Error()})
 				}
 			}
@@ -923,6 +957,29 @@ func runC04(c *core.Ctx) {
 						dels = append(dels, delivery{"variable-in-list-in-object-literal", fmt.Sprintf("query Q($v: Int!) { %s(x: %s) }", field, ol), map[string]interface{}{"v": lv.L[0].JSON()}, true, world.NN(world.N("Int")), false})
 					}
 				}
+				// an unset variable (no value, no default) as the value of an input field that declares a default, inside an object
+				// literal (directly, or as the one member of a list literal): the field counts as left out, its default applies
+				{
+					ov, wrapL := v, false
+					if lt := stripNN(t); lt.K == world.TList && v.K == cvList && len(v.L) == 1 {
+						ov, wrapL = v.L[0], true
+					}
+					bt := stripNN(t)
+					if wrapL {
+						bt = stripNN(bt.Of)
+					}
+					if _, has := ov.O["def"]; bt.K == world.TNamed && bt.Name == "I" && ov.K == cvObj && !has {
+						inner := strings.TrimSuffix(strings.TrimPrefix(ov.Literal(), "{"), "}")
+						if strings.TrimSpace(inner) != "" {
+							inner += ", "
+						}
+						ol := "{" + inner + "def: $v}"
+						if wrapL {
+							ol = "[" + ol + "]"
+						}
+						dels = append(dels, delivery{"unset-variable-in-defaulted-field-of-object-literal", fmt.Sprintf("query Q($v: String) { %s(x: %s) }", field, ol), nil, true, nil, false})
+					}
+				}
 				// a variable declared with the nullable version of the type, left unset or set to null, used where the
 				// argument type is T: ggql does not validate variable usage, so only coercion at the argument can refuse it
 				if v.K == cvNull {
@@ -938,6 +995,16 @@ func runC04(c *core.Ctx) {
 					dels = append(dels, delivery{name: "argument-omitted", query: fmt.Sprintf("{ %s }", field), ok: true})
 					dels = append(dels, delivery{name: "warm-root+argument-omitted", query: fmt.Sprintf("{ %s }", field), ok: true})
 				}
+				// the argument declared with a default value (field d..): left out, left out next to another argument, and given an
+				// unset variable - whatever the library does about the default, a resolver that runs gets the default or (nullable
+				// types only) nothing, never a null in a non-null position
+				if v.K == cvNull {
+					dfield := "d" + field[1:]
+					dels = append(dels, delivery{name: "default-declared+omitted", query: fmt.Sprintf("{ %s }", dfield), ok: true})
+					dels = append(dels, delivery{name: "default-declared+omitted-beside-other", query: fmt.Sprintf("{ %s(y: 1) }", dfield), ok: true})
+					dels = append(dels, delivery{name: "default-declared+unset-variable", query: fmt.Sprintf("query Q($v: %s) { %s(x: $v, y: 1) }", stripNN(t), dfield), ok: true})
+					dels = append(dels, delivery{name: "default-declared+literal-null", query: fmt.Sprintf("{ %s(x: null) }", dfield), ok: true})
+				}
 				dels = append(dels, delivery{name: "warm-root+literal", query: fmt.Sprintf("{ %s(x: %s) }", field, lit), ok: true})
 				// prepared twins: the same request as a parsed executable that was already resolved once with a valid value
 				for _, dl := range append([]delivery{}, dels...) {
@@ -952,6 +1019,10 @@ func runC04(c *core.Ctx) {
 					mf := mf0
 					if isOmit(dl) {
 						mf = t.K == world.TNonNull
+					}
+					isDflt := strings.HasPrefix(dl.name, "default-declared+")
+					if isDflt {
+						mf = dl.name == "default-declared+literal-null" && t.K == world.TNonNull
 					}
 					if !dl.ok {
 						continue
@@ -1024,6 +1095,15 @@ func runC04(c *core.Ctx) {
 						case rec.invoked == 0:
 							c.Outcome("over-rejected(allowed)")
 							c.Count("over_rejections")
+						case isDflt && dl.name != "default-declared+literal-null":
+							// the default, or nothing at all where null is a value of the type
+							if s := conform(t, validCV(t), got); s != "" && !(got == nil && t.K != world.TNonNull) {
+								cs.Diff = "argument declared with the default " + validLit(t) + " and not given: " + s
+								c.Outcome("nonconforming")
+								c.Violation("arg-nonconforming", attrs, cs)
+							} else {
+								c.Outcome("conforming")
+							}
 						case isOmit(dl):
 							if got != nil {
 								cs.Diff = fmt.Sprintf("the argument was not written, the resolver got %#v", got)
